@@ -1,6 +1,7 @@
 package vrt
 
 import (
+	"context"
 	"reflect"
 )
 
@@ -295,5 +296,49 @@ func RangeChan[T any](ch <-chan T, f func(T) bool) {
 		if !f(v) {
 			return
 		}
+	}
+}
+
+// ---------------------------------------------------------------------------
+// context cancellation. The Done channel of a context is closed by the context package, which the
+// channel model cannot see; context.WithCancel is therefore replaced by WithCancel, whose cancel
+// function cancels the real context (so that Err() and everything derived from it outside the
+// rewritten code behave) and marks the modelled Done channel — and those of the contexts derived
+// from it through WithCancel — closed, as a scheduling point of its own.
+func WithCancel(parent context.Context) (context.Context, context.CancelFunc) {
+	ctx, cancel := context.WithCancel(parent)
+	if cur == nil || cur.aborting {
+		return ctx, cancel
+	}
+	e := cur
+	id, _ := chid(ctx.Done())
+	if pd := parent.Done(); pd != nil {
+		pid, _ := chid(pd)
+		e.ctxKids[pid] = append(e.ctxKids[pid], id)
+		if e.cs(pid).closed {
+			e.cs(id).closed = true
+		}
+	}
+	return ctx, func() {
+		cancel()
+		if cur != e || e.aborting {
+			return
+		}
+		yield(&Op{Kind: "ctx.cancel", Obj: id})
+		me := e.running
+		me.vc.tick(me.ID)
+		var mark func(id uintptr)
+		mark = func(id uintptr) {
+			s := e.cs(id)
+			if s.closed {
+				return
+			}
+			s.closed = true
+			s.closeVC = me.vc.copy()
+			for _, k := range e.ctxKids[id] {
+				mark(k)
+			}
+		}
+		mark(id)
 	}
 }
